@@ -215,4 +215,48 @@ theorem normInt_ge (hge : ∀ x y, P.lz ≤ x → P.lz ≤ y → max x y ≤ P.l
     · omega
     · exact i2 x hx
 
+/-! ### the association-list passes compute the same functions -/
+
+theorem look_cons (d : Link → Int) (x : Link) (v : Int) (m : ATab) :
+    look d ((x, v) :: m) = upd (look d m) x v := by
+  funext y; simp [look, upd]
+
+theorem alphaVisitT_eq (m : ATab) (l : Link) :
+    look (alphaInit P L) (alphaVisitT P L m l) = alphaVisit P L (look (alphaInit P L) m) l := by
+  unfold alphaVisitT alphaVisit
+  simp only
+  rw [← look_cons]
+  generalize ((l, look (alphaInit P L) m l + P.sc l) :: m) = m0
+  generalize look (alphaInit P L) m l + P.sc l = a
+  induction (exits L l.dst) generalizing m0 with
+  | nil => rfl
+  | cons x xs ih =>
+    simp only [List.foldl_cons]
+    rw [ih, look_cons]
+
+theorem alphaIntT_eq : look (alphaInit P L) (alphaIntT P L) = alphaInt P L := by
+  unfold alphaIntT alphaInt
+  have : ∀ (ord : List Link) (m : ATab),
+      look (alphaInit P L) (ord.foldl (alphaVisitT P L) m) = ord.foldl (alphaVisit P L) (look (alphaInit P L) m) := by
+    intro ord
+    induction ord with
+    | nil => intro m; rfl
+    | cons l ord ih => intro m; simp only [List.foldl_cons]; rw [ih, alphaVisitT_eq]
+  exact this _ []
+
+theorem betaVisitT_eq (m : ATab) (l : Link) :
+    look (fun _ => P.lz) (betaVisitT P L m l) = betaVisit P L (look (fun _ => P.lz) m) l := by
+  unfold betaVisitT betaVisit
+  split <;> rw [look_cons]
+
+theorem betaIntT_eq : look (fun _ => P.lz) (betaIntT P L) = betaInt P L := by
+  unfold betaIntT betaInt
+  have : ∀ (ord : List Link) (m : ATab),
+      look (fun _ => P.lz) (ord.foldl (betaVisitT P L) m) = ord.foldl (betaVisit P L) (look (fun _ => P.lz) m) := by
+    intro ord
+    induction ord with
+    | nil => intro m; rfl
+    | cons l ord ih => intro m; simp only [List.foldl_cons]; rw [ih, betaVisitT_eq]
+  exact this _ []
+
 end SSVerif.Lattice
